@@ -169,6 +169,10 @@ fn check_inner(sub: &str, g: &G, toks: &[char], l: &mut Local) -> CaseRes {
 }
 
 pub fn check_case(case: &Case, l: &mut Local) -> Result<(), Fail> {
+    if case.sub == "kinds" {
+        let seed = case.extra.get("gap_seed").and_then(|p| p.as_u64()).unwrap_or(1);
+        return kinds_case(ID, &case.g, &case.toks(), seed, l).map_err(|(_, f)| f);
+    }
     check_inner(&case.sub, &case.g, &case.toks(), l).map_err(|(_, f)| f)
 }
 
@@ -294,7 +298,13 @@ pub fn run(tier: Tier, seed: u64) -> i32 {
     ctx.par_random(n, 220, 8, |tape, l| {
         let (g, input) = decode(tape);
         debug_assert!(wf(&g), "ill-formed: {}", render(&g));
-        check_inner("rand", &g, &input, l)
+        check_inner("rand", &g, &input, l)?;
+        // one case in sixteen: every other input representation too (C10's comparison against the slice baseline)
+        if tape.first().copied().unwrap_or(0) % 16 == 0 {
+            l.bump("cases_on_every_input_kind");
+            kinds_case(ID, &g, &input, 1 + (tape.len() as u64 % 5), l)?;
+        }
+        Ok(())
     });
     ctx.finish(&check_case, RULE, ASSUMPTIONS, &|l| {
         for k in ["recovery_fired_on_surviving_path", "recovery_fired_then_abandoned", "parser_and_strategy_both_failed", "transparent_on_success", "strat:via", "strat:skip_until", "strat:skip_retry", "strat:nested"] {
